@@ -132,6 +132,31 @@ def check_module(res, m, ns, tree, mod, bb, bv, replay):
         if node is not None:
             used_names.update(names_in(node))
 
+    # annotation-type classes: constructor parameters and one read-only property per parameter
+    for name, rc in rt_classes.items():
+        sc = stub_classes.get(name)
+        if sc is None or not issubclass(rc, bb.AnnotationType):
+            continue
+        res.count('annotation_type_classes_compared')
+        rt_init = [p_ for p_ in inspect.signature(rc.__init__).parameters][1:]
+        rt_props = sorted(a for a in vars(rc) if isinstance(vars(rc)[a], property))
+        st_init, st_props = None, []
+        for node in sc.body:
+            if isinstance(node, ast.FunctionDef):
+                if node.name == '__init__':
+                    st_init = [a.arg for a in node.args.args][1:]
+                    for a in node.args.args[1:]:
+                        note_ann(a.annotation)
+                elif any(ast.unparse(dc) == 'property' for dc in node.decorator_list):
+                    st_props.append(node.name)
+                    note_ann(node.returns)
+        if st_init != rt_init:
+            bad('annotation_type_init_differs', {'class': name, 'stub': st_init, 'runtime': rt_init})
+        elif sorted(st_props) != rt_props:
+            bad('annotation_type_properties_differ', {'class': name, 'stub': sorted(st_props), 'runtime': rt_props})
+        else:
+            res.see('annotation_type', min(len(rt_init), 3))
+
     for d in ns.defs:
         if d.kind not in ('struct', 'union'):
             continue
